@@ -90,10 +90,20 @@ func c16Clobber(r *vf.Run) {
 						for _, row := range csv.Rows() {
 							_, _ = iw.AddRow(row)
 						}
-						err := iw.Flush()
-						failed = err != nil
-						if err != nil {
+						// the same writer tries three times: every attempt must fail and leave the file alone
+						failed = true
+						for attempt := 1; attempt <= 3; attempt++ {
+							err := iw.Flush()
+							if err == nil {
+								failed = false
+								w["flush_attempt_that_succeeded"] = attempt
+								break
+							}
 							w["error"] = err.Error()
+							if mid := mon.StatFile(out); !mid.SameContent(before) {
+								w["changed_after_flush_attempt"] = attempt
+								break
+							}
 						}
 					default:
 						in := filepath.Join(dir, vf.Digest(cid)+".csv")
@@ -264,15 +274,75 @@ func c16Strace(r *vf.Run) {
 	for len(ds.Cols) == 0 {
 		ds = identDataset(rng, "st", 2500, false)
 	}
-	path := filepath.Join(dir, "st-index.updog")
-	if err := ix.Build(ix.WriterBig, path, ds.Rows); err != nil {
+	// column names that the CLI's header normalisation leaves alone (lower-case letters and '_'), so that the library-
+	// built and the CLI-built indexes answer the same query texts
+	for _, row := range ds.Rows {
+		for c, v := range row {
+			if n := gen.NormalizeHeader(c); n != c {
+				delete(row, c)
+				row[n] = v
+			}
+		}
+	}
+	ds.Index()
+	// the index files that are only read: one written through the library, and one per mode written by the real CLI
+	// (the CLI may configure bbolt differently from the library, which matters to whoever opens the file later)
+	libPath := filepath.Join(dir, "st-index.updog")
+	if err := ix.Build(ix.WriterBig, libPath, ds.Rows); err != nil {
 		r.Violation("strace", "build", err.Error())
 		return
 	}
-	before := mon.StatFile(path)
+	csvText := func() string {
+		var sb strings.Builder
+		cols := ds.ColNames()
+		for i, c := range cols {
+			if i > 0 {
+				sb.WriteByte(',')
+			}
+			sb.WriteString(gen.CSVQuote(c))
+		}
+		sb.WriteByte('\n')
+		for _, row := range ds.Rows {
+			for i, c := range cols {
+				if i > 0 {
+					sb.WriteByte(',')
+				}
+				sb.WriteString(gen.CSVQuote(row[c]))
+			}
+			sb.WriteByte('\n')
+		}
+		return sb.String()
+	}()
+	in := filepath.Join(dir, "st.csv")
+	_ = os.WriteFile(in, []byte(csvText), 0o644)
+	paths := map[string]string{"library": libPath}
+	for _, mode := range []string{"cli-normal", "cli-big"} {
+		out := filepath.Join(dir, "st-"+mode+".updog")
+		args := []string{"create", "-o", out}
+		if mode == "cli-big" {
+			args = append(args, "-b")
+		}
+		if res := runChild(r, binPath("updog"), append(args, in), childOpts{Timeout: 3 * time.Minute}); res.Code == 0 && !res.TimedOut {
+			paths[mode] = out
+		} else {
+			r.Inconclusive("strace: could not create the index with the CLI (" + mode + "): " + tail(res.Stderr, 300))
+		}
+	}
 	cols := ds.ColNames()
 	qtext := gen.FormatQuery(oracle.Or(oracle.Eq(cols[0], ds.Vals[cols[0]][0]), oracle.Not(oracle.Eq(cols[0], ds.Vals[cols[0]][0]))), cols[:1])
 	trace := []string{"/usr/bin/strace", "-f", "-y", "-s", "64", "-e", "trace=%file,%desc"}
+	for _, origin := range []string{"library", "cli-normal", "cli-big"} {
+		path, ok := paths[origin]
+		if !ok {
+			continue
+		}
+		c16StraceOne(r, dir, origin, path, ds, cols, qtext, trace)
+	}
+}
+
+func c16StraceOne(r *vf.Run, dir, origin, path string, ds *gen.Dataset, cols []string, qtext string, trace []string) {
+	before := mon.StatFile(path)
+	r.Cover("strace_index_origins", origin)
 	check := func(cid, logPath string) {
 		lb, _ := os.ReadFile(logPath)
 		bad, mentions := scanStrace(string(lb), path)
@@ -284,10 +354,10 @@ func c16Strace(r *vf.Run) {
 			r.Inconclusive(cid + ": the strace log never mentions the index path")
 		}
 		if len(bad) > 0 {
-			r.Violation(cid, "mutating-syscall-on-index", map[string]any{"syscalls": bad[:min(len(bad), 10)]})
+			r.Violation(cid, "mutating-syscall-on-index", map[string]any{"syscalls": bad[:min(len(bad), 10)], "index_written_by": origin})
 		}
 		if after := mon.StatFile(path); !after.SameContent(before) || after.MTime != before.MTime {
-			r.Violation(cid, "index-file-changed-by-reading", map[string]any{"before": before.String(), "after": after.String()})
+			r.Violation(cid, "index-file-changed-by-reading", map[string]any{"before": before.String(), "after": after.String(), "index_written_by": origin})
 		}
 	}
 	// updog schema / schema --full / driver
@@ -301,12 +371,12 @@ func c16Strace(r *vf.Run) {
 		{"driver-preload-cache", []string{"driver", "-d", "file:" + path + "?preload=true&lrucache=true&lrucachesize=100000", qtext, `nosuchcol = "1"`}},
 	}
 	for _, c := range cmds {
-		cid := "strace/" + c.name
+		cid := "strace/" + origin + "/" + c.name
 		if !r.Want(cid) {
 			continue
 		}
 		r.Progress(cid)
-		logPath := filepath.Join(dir, c.name+".strace")
+		logPath := filepath.Join(dir, origin+"-"+c.name+".strace")
 		args := append(append(append([]string{}, trace[1:]...), "-o", logPath, binPath("updog")), c.args...)
 		res := runChild(r, trace[0], args, childOpts{Timeout: 3 * time.Minute})
 		if res.TimedOut {
@@ -325,12 +395,12 @@ func c16Strace(r *vf.Run) {
 		if so != nil {
 			name = "server-preload"
 		}
-		cid := "strace/" + name
+		cid := "strace/" + origin + "/" + name
 		if !r.Want(cid) {
 			continue
 		}
 		r.Progress(cid)
-		logPath := filepath.Join(dir, name+".strace")
+		logPath := filepath.Join(dir, origin+"-"+name+".strace")
 		sp, err := startServerWrapped(r, append(append([]string{}, trace...), "-o", logPath), binPath("updog"), path, so, nil)
 		if err != nil {
 			r.Inconclusive(cid + ": " + err.Error())
